@@ -109,7 +109,7 @@ Proof.
 Qed.
 
 (** ---------------- block trees ---------------- *)
-Inductive node := NLine (ln : line) | NBlock (head : line) (body : nodes) (tl : arms)
+Inductive node := NLine (ln : line) | NBlock (head : line) (body : nodes) (tl : arms) | NMacro (head : line) (body : nodes) (e : line)
 with nodes := Nnil | Ncons (n : node) (ns : nodes)
 with arms := AEnd (e : line) | AElse (el : line) (body : nodes) (e : line) | AElif (hd : line) (body : nodes) (more : arms).
 Scheme node_i := Induction for node Sort Prop
@@ -118,7 +118,7 @@ with arms_i := Induction for arms Sort Prop.
 Combined Scheme tree_mut from node_i, nodes_i, arms_i.
 
 Fixpoint fl_node (n : node) : lines :=
-  match n with NLine ln => [ln] | NBlock h b a => h :: fl_nodes b ++ fl_arms a end
+  match n with NLine ln => [ln] | NBlock h b a => h :: fl_nodes b ++ fl_arms a | NMacro h b e => h :: fl_nodes b ++ [e] end
 with fl_nodes (ns : nodes) : lines :=
   match ns with Nnil => [] | Ncons n r => fl_node n ++ fl_nodes r end
 with fl_arms (a : arms) : lines :=
@@ -128,6 +128,10 @@ with fl_arms (a : arms) : lines :=
   | AElif hd b m => hd :: fl_nodes b ++ fl_arms m
   end.
 
+(** the line that ends a macro definition *)
+Definition is_endm (ln : line) : bool :=
+  match dir_of (snd ln) with Some DEndM | Some DEndMacro => true | _ => false end.
+
 (** well-formed: every line sits where its kind says - conditional directives only as the heads and
     ends of blocks; everything else ([KPlain]: statements, text that does not parse, .macro, ...)
     only as plain lines *)
@@ -135,6 +139,9 @@ Fixpoint wf_node (n : node) : Prop :=
   match n with
   | NLine ln => kind_of ln = KPlain
   | NBlock h b a => kind_of h = KIf /\ wf_nodes b /\ wf_arms a
+  (* a macro definition: the head is an ordinary line (it is .macro when the semantics accepts it), the
+     body is balanced text without an end-of-macro line, closed by .endm / .endmacro *)
+  | NMacro h b e => kind_of h = KPlain /\ wf_nodes b /\ forallb (fun ln => negb (is_endm ln)) (fl_nodes b) = true /\ is_endm e = true
   end
 with wf_nodes (ns : nodes) : Prop :=
   match ns with Nnil => True | Ncons n r => wf_node n /\ wf_nodes r end
@@ -156,6 +163,22 @@ Lemma skip_cond_kind all d ln r :
   end.
 Proof. destruct ln as [n l]. unfold kind_of. cbn [skip_cond snd]. destruct (dir_of l) as [[]|]; reflexivity. Qed.
 
+Lemma endm_plain e : is_endm e = true -> kind_of e = KPlain.
+Proof. unfold is_endm, kind_of. destruct (dir_of (snd e)) as [[]|]; intros H; try discriminate; reflexivity. Qed.
+
+(** the collector of macro bodies stops at the first end-of-macro line *)
+Lemma skip_macro_body b e rest : forallb (fun ln => negb (is_endm ln)) b = true -> is_endm e = true ->
+  forall acc, skip_macro (b ++ e :: rest) acc = ((acc ++ b)%list, rest).
+Proof.
+  intros Hb He. induction b as [|[n l] b IH]; intros acc; cbn [app].
+  - destruct e as [n l]. cbn [skip_macro]. unfold is_endm in He. cbn [snd] in He. rewrite app_nil_r.
+    destruct (dir_of l) as [[]|]; try discriminate; reflexivity.
+  - cbn [forallb] in Hb. apply andb_prop in Hb. destruct Hb as (H1 & H2). cbn [skip_macro].
+    unfold is_endm in H1. cbn [snd] in H1.
+    rewrite (IH H2 (acc ++ [(n, l)])%list), <- app_assoc.
+    destruct (dir_of l) as [[]|]; try discriminate; reflexivity.
+Qed.
+
 (** balanced text is invisible to the skipper, at every depth, in both modes *)
 Lemma skip_balanced all :
   (forall n, wf_node n -> forall d r, skip_cond all d (fl_node n ++ r) = skip_cond all d r) /\
@@ -165,6 +188,8 @@ Proof.
   apply tree_mut.
   - intros ln H d r. cbn [fl_node app wf_node] in *. rewrite skip_cond_kind, H. reflexivity.
   - intros h b IHb a IHa (Hh & Hb & Ha) d r. cbn [fl_node app]. rewrite skip_cond_kind, Hh, <- app_assoc, IHb, IHa by assumption. reflexivity.
+  - intros h b IHb e (Hh & Hb & _ & He) d r. cbn [fl_node app]. rewrite skip_cond_kind, Hh, <- app_assoc, IHb by assumption.
+    cbn [app]. rewrite skip_cond_kind, (endm_plain _ He). reflexivity.
   - intros _ d r. reflexivity.
   - intros n IHn ns IHns (Hn & Hns) d r. cbn [fl_nodes]. rewrite <- app_assoc, IHn, IHns by assumption. reflexivity.
   - intros e H d r. cbn [fl_arms app wf_arms] in *. rewrite skip_cond_kind, H. reflexivity.
@@ -203,6 +228,13 @@ Fixpoint ex_node (n : node) (st : pstate) : ores :=
       match line_step h false st with
       | Ok (st', NewLine) => obind (ex_nodes b st') (after_taken a)     (* condition holds: this arm, no other *)
       | Ok (st', EndIf) => ex_arms a st'                                  (* condition fails: look at the next arm *)
+      | r => lift_err r
+      end
+  | NMacro h b e =>
+      match line_step h false st with
+      | Ok (st', EndMacro) =>                                              (* the body is recorded as text, nothing of it is assembled *)
+          Some (Ok {| segs := segs st'; macro_name := macro_name st'; macros := insert (macro_name st') (fl_nodes b) (macros st');
+                      msgs := msgs st'; pcx := pcx st'; fl := fl st' |})
       | r => lift_err r
       end
   end
@@ -267,6 +299,14 @@ Proof.
         -- injection He as <-. eapply IHb; [exact Hb | exact Eb | exact HC].
         -- injection He as <-. eapply IHb; [exact Hb | exact Eb | exact HC].
       * (* not taken *) eapply R_skip; [exact E|]. rewrite SNf by exact Hb. eapply IHa1; eauto.
+    + eapply run_err; eauto.
+    + eapply run_err; eauto.
+    + eapply run_err; eauto.
+  - (* macro definition *)
+    intros h b _ e (Hh & Hb & Hne & He) st o rest res Hx HC. cbn [fl_node app ex_node] in *. rewrite <- app_assoc. cbn [app].
+    destruct (line_step h false st) as [[st' ni]| l | |] eqn:E.
+    + destruct ni; cbn in Hx; try discriminate. injection Hx as <-. eapply R_macro; [exact E|].
+      rewrite (skip_macro_body _ _ _ Hne He []). cbn [fst snd app]. exact HC.
     + eapply run_err; eauto.
     + eapply run_err; eauto.
     + eapply run_err; eauto.
